@@ -1,8 +1,9 @@
 //! C04 — nearest-neighbour search (LinearKNNSearch, CoverTree, HeapSelection) and the k-NN
 //! estimators: correspondence cases for the Coq model (SC.C04.Corr; the cover-tree searches are
 //! run by the model on the implementation's own serde-dumped tree and the well-formedness
-//! hypothesis of the exactness theorems is evaluated on that tree) and the failing-input search
-//! (brute-force oracles written from the property text).
+//! hypothesis of the exactness theorems is evaluated on that tree; the construction model must
+//! rebuild that tree node for node, with the private scale functions observed through cfg hooks) and
+//! the failing-input search (brute-force oracles written from the property text).
 use serde::{Deserialize, Serialize};
 use serde_json::{json, Value};
 use smartcore::algorithm::neighbour::cover_tree::CoverTree;
